@@ -26,7 +26,13 @@ def check(tier, seed):
             for m in mem_sizes:
                 jobs.append(dict(name="%s_m%d" % (name, m), src=src, args=["40"], stack=200, mem=m, meta=dict(prog=name, axis="heap", size=m)))
             # C14-3 style: heap smaller than stack with a deep program
-    deep = next((p for p in fam if p[2].get("depth")), None)
+    wide = next((p for p in fam if p[2].get("wide")), None)
+    if wide:
+        # stack demand (depth x frame) above the heap size but below the stack size: the stack buffer must have the
+        # configured STACK size whatever the heap size is
+        for (m, s) in [(5000, 1000), (200, 1000), (250, 600), (300, 1000), (220, 500)]:
+            jobs.append(dict(name="%s_m%d_s%d" % (wide[0], m, s), src=wide[1], args=["25"], stack=s, mem=m, meta=dict(prog=wide[0], axis="both", size=(m, s))))
+    deep = next((p for p in fam if p[2].get("depth") and not p[2].get("wide")), None)
     if deep:
         for (m, s) in [(200, 1000), (210, 300), (150, 600)]:
             jobs.append(dict(name="%s_m%d_s%d" % (deep[0], m, s), src=deep[1], args=["30"], stack=s, mem=m, meta=dict(prog=deep[0], axis="both", size=(m, s))))
